@@ -33,8 +33,11 @@ Hypotheses of the clean form (all defined, with their justification, in `Perp/Pr
   preserved by every transaction (`SatBuffer.bufferHalf_step`), established by `instantiate`
   (`VammGuards.instantiate_buffer`).  Needed by clause `next-funding-less-than-half-a-period-away`;
   counterexample without it: `SatEWitness.c11_needs_bufferHalf`.
-* `SatC11.NoFundsAttached w f tx` — **precondition** (kind c): no native coins attached to PayFunding.
-  Needed by the three `funding-payment-…` clauses; counterexample: `SatEWitness.c11_needs_noFunds`.
+* (The former precondition `SatC11.NoFundsAttached w f tx` — no native coins attached to PayFunding — is
+  gone: the three `funding-payment-…` clauses of `Spec.C11.check` now expect the host's attachment transfer
+  `(sender, ENGINE, amount)` at the head of the transfer list and count the attached coins into the vault
+  that caps the payment, unless the sender is the vault itself (`SatC11.engine_start_att`).  The former
+  counterexample now passes: `SatEWitness.c11_funds_attached_ok`; see also `c11_funds_attached_cap`.)
 * `SatC11.SenderOutside w s` — **wiring** (kind b, implied by `Wired w ∧ UserSender w s`,
   `SatC11.SenderOutside.of_wired`): the sender is not the vault / configured insurance fund / fee pool.
   Needed by clause `funding-skipped-when-closing-by-reversal` (the payout is read off the transfer list).
@@ -59,19 +62,19 @@ passes: `c11_stale_notional_ok`.
 -/
 
 theorem sat_C11 (w : World) (env : Env) (s : Nat) (f : Funds) (tx : Tx) (hwf : WF w)
-    (hbh : SatC11.BufferHalf w) (hnf : SatC11.NoFundsAttached w f tx) (hso : SatC11.SenderOutside w s)
+    (hbh : SatC11.BufferHalf w) (hso : SatC11.SenderOutside w s)
     (hnz : Mirror.NoZeroVamm w) :
     Spec.C11.check (modelStep w env s f tx) = [] := by
   have _ := hwf
-  exact SatC11.sat_C11 w env s f tx hbh hnf hso hnz
+  exact SatC11.sat_C11 w env s f tx hbh hso hnz
 
 /-- general form, without the deployment facts `SenderOutside` / `NoZeroVamm`: only the reversal-payout clause
     can fail (and does without `NoZeroVamm`: `c11_needs_noZeroVamm`) -/
 theorem C11_tags (w : World) (env : Env) (s : Nat) (f : Funds) (tx : Tx) (hwf : WF w)
-    (hbh : SatC11.BufferHalf w) (hnf : SatC11.NoFundsAttached w f tx) :
+    (hbh : SatC11.BufferHalf w) :
     ∀ tag ∈ Spec.C11.check (modelStep w env s f tx), tag ∈ ["funding-skipped-when-closing-by-reversal"] := by
   have _ := hwf
-  exact SatC11.C11_tags w env s f tx hbh hnf
+  exact SatC11.C11_tags w env s f tx hbh
 
 /-- the invariant is preserved by `step` -/
 theorem bufferHalf_preserved (w : World) (env : Env) (s : Nat) (f : Funds) (tx : Tx)
